@@ -92,7 +92,7 @@ def check (j : Json) : Except String Verdict := do
   let nk : String → Lk RouteCfg := fun n => if n = "rc-a" then supply nsup namedCfg else .err
   -- model (draw value 0 is enough: generated cluster vectors have at most one non-zero weight)
   let ro := routeCall Generated.pick rx lk nk false md inv 0
-  let c0 : Call := ⟨pretag, false, 0⟩
+  let c0 : Call := ⟨pretag, false, jNatD j "initMs" 0⟩   -- the call may carry a timeout of its own
   let showCall (c : Call) : String := s!"tag={c.tag} locked={c.locked} timeout={c.timeoutMs}"
   let implCall : Call := ⟨o.tag, o.locked, o.timeoutMs⟩
   -- an already decided tag is not locked by this step; the probe reports its lock state as found
